@@ -35,7 +35,8 @@ theorem setCollNil_ok {del : ObjId → St → Res} {o : ObjId} {c : Attr} {st st
     {E : ObjId → Attr → Prop} {P : ObjId → Prop}
     (h : setCollCore sch del true o c [] st = .ok st') (hc : sch.side c = some cd) (hcd : cd.isColl = true)
     (hcasc : cd.cascade = false) (ho : o < st.store.n) (hR : Range st.store) (hD : D sch st.store E) (hP : P o) :
-    D sch st'.store E ∧ Sub st.store st'.store ∧ Cleared P st.store st'.store := by
+    D sch st'.store E ∧ Sub st.store st'.store ∧ Cleared P st.store st'.store ∧
+      st'.store.alive = st.store.alive ∧ (∀ q, hasB sch st'.store o c q = false) := by
   unfold setCollCore at h
   split at h
   · cases h
@@ -46,7 +47,18 @@ theorem setCollNil_ok {del : ObjId → St → Res} {o : ObjId} {c : Attr} {st st
       rw [hc] at hd; cases hd
       simp only at h
       split at h
-      · cases h; exact ⟨hD, Sub.refl _, Cleared.refl _ _⟩
+      · rename_i hall
+        cases h
+        refine ⟨hD, Sub.refl _, Cleared.refl _ _, rfl, ?_⟩
+        intro q
+        rw [hasB_coll_eq hc hcd]
+        cases hm : st.store.mem o c q with
+        | false => rfl
+        | true =>
+          have hq := hR.2 o c q ho hm
+          simp only [List.all_eq_true, List.mem_range] at hall
+          have := hall q hq
+          simp [hm] at this
       · obtain ⟨st2, h12, h2⟩ := Res.bind_ok h
         cases h2
         have hrr := sch.rev_rev c
@@ -85,7 +97,7 @@ theorem setCollNil_ok {del : ObjId → St → Res} {o : ObjId} {c : Attr} {st st
               split at hm
               · cases hm
               · exact hM1 p b q hm
-          refine ⟨?_, hsub, ?_⟩
+          refine ⟨?_, hsub, ?_, by simp only [Store.setRow]; exact hF1.alive, fun q => by rw [hasB_setRow hc hcd]; simp⟩
           · apply hD.removal hsub
             intro p b q hp hal2 hh hmir
             left
@@ -134,7 +146,7 @@ theorem setCollNil_ok {del : ObjId → St → Res} {o : ObjId} {c : Attr} {st st
               split at hm
               · cases hm
               · exact hM1 p b q hm
-          refine ⟨?_, hsub, ?_⟩
+          refine ⟨?_, hsub, ?_, by simp only [Store.setRow]; exact hF1.alive, fun q => by rw [hasB_setRow hc hcd]; simp⟩
           · apply hD.removal hsub
             intro p b q hp hal2 hh hmir
             left
@@ -233,7 +245,7 @@ theorem delete_spec : ∀ fuel, DelSpec sch (fun x => delete sch fuel x) := by
                   exact hI.step h1 h2 h3
                 · rename_i hcasc
                   split at hf
-                  · obtain ⟨h1, h2, h3⟩ := setCollNil_ok (P := fun w => P w ∨ w = o) hf hd hcoll' (by simpa using hcasc) ho' hR' hI.d (Or.inr rfl)
+                  · obtain ⟨h1, h2, h3, _, _⟩ := setCollNil_ok (P := fun w => P w ∨ w = o) hf hd hcoll' (by simpa using hcasc) ho' hR' hI.d (Or.inr rfl)
                     exact hI.step h1 h2 h3
                   · cases hf
           · cases hf) _ _ _ hI0 hA1
